@@ -476,6 +476,8 @@ class ParserText(ParserBase):
             elif date_time.tzinfo is None:
                 # no zone, or a zone name that is not understood: the value is composed with the GMT label
                 date_time = date_time.replace(tzinfo=dateutil.tz.UTC)
+            if date_time.year < 100:  # cannot be written: a year of one or two digits is read as a recent one
+                raise ValueError(date_time.year)
         except (ValueError, ArithmeticError) as e:  # dateutil: OverflowError, decimal.InvalidOperation
             six.raise_from(InvalidValue(value, type(self), 'value'), e)
 
@@ -846,7 +848,8 @@ class ComposerText(ComposerBase):
             # the formats label the time as GMT: a value that carries another zone offset is converted first
             value = value.astimezone(dateutil.tz.UTC)
 
-        self.compose_string(value.strftime(fmt))
+        # strftime does not pad a year below 1000, and a year of fewer than four digits is read as a recent one
+        self.compose_string(value.strftime(fmt.replace('%Y', '{:04d}'.format(value.year))))
 
     def compose_time_delta(self, value):
         self.compose_numeric(int(value.total_seconds()))
